@@ -832,7 +832,9 @@ def _parse_unit(input_: str) -> Optional[Unit]:
     input_ = input_.strip().lower()
     if not isinstance(input_, str):
         raise TypeError(f"type str expected for 'input_', got {type(input_)}")
-    if hasattr(PreferredUnits, input_):
+    # a preferred-units slot name such as 'distance' stands for the unit currently preferred for it; only the
+    # declared slots qualify (hasattr() also matched 'set', 'defaults', '__doc__', ... and returned a method or str)
+    if input_ in getattr(PreferredUnits, '__dataclass_fields__'):
         return getattr(PreferredUnits, input_)
     try:
         return Unit[input_]
